@@ -6,6 +6,8 @@ import RimuModel.Cli
 
 namespace Rimu
 
+@[simp] theorem except_ok_bind {ε α β} (a : α) (f : α → Except ε β) : (Except.ok a >>= f) = f a := rfl
+
 @[simp] theorem except_pure {ε α} (a : α) : (pure a : Except ε α) = .ok a := rfl
 
 /-! option names are compared as character lists; the literal comparisons are evaluated once here -/
